@@ -269,6 +269,9 @@ def run(ctx):
     g("R15.dupdrop", "validate:entry-point-range", v, Cmp("ge", ["f:entry_point"], ["c:len", "f:statements"]),
       rel="ge", err=(PRE, "FunctionNonExistingEntryPoint"))
 
+    # ---- clause: arguments have exactly the declared types - the two records of a function's parameter types agree
+    _params_signature(ctx, F, compile_fn, v, new)
+
     # ---- clause: frame state consistent at return
     vfe = F.find1(S2C + "environment::validate_final_environment")
     ctx.ob("R15.frame", "validate_final_environment:frame_state", bool(vfe.calls_to("validate_final_frame_state")),
@@ -277,6 +280,71 @@ def run(ctx):
 
     ctx.floor("C15 obligations", len(ctx.obligations), 40)
     _controls(ctx, F)
+
+
+class SeqEq(Cmp):
+    """A whole-sequence comparison guard: `a == b` / `a != b` on sequences, Iterator::eq / ne, itertools::equal."""
+    EQ = {"eq": "eq", "equal": "eq", "ne": "ne"}
+
+    def __init__(self, a, b):
+        Cmp.__init__(self, "eq", a, b)
+
+    def describe(self):
+        return "%s == %s (element-wise)" % (self.a, self.b)
+
+    def match(self, fn, bb):
+        from .guards import bool_condition, NEG
+        info, flip = bool_condition(fn, bb)
+        if not info or info[0] != "call" or info[1].name() not in self.EQ or len(info[1].args) != 2:
+            return None
+        x, y = info[1].args
+        px, py = op_prov(fn, x, 24), op_prov(fn, y, 24)
+        if not ((marker_matches(px, self.a) and marker_matches(py, self.b)) or
+                (marker_matches(px, self.b) and marker_matches(py, self.a))):
+            return None
+        rel = self.EQ[info[1].name()]
+        return NEG[rel] if flip else rel
+
+
+def _params_signature(ctx, F, compile_fn, validate, new):
+    """R15.sig.  A `Function` records the types of its parameters twice: `params[i].ty` and `signature.param_types[i]`.
+    The body is typed from the former (the references of the parameters are built from `params`), a `function_call` from
+    the latter (the libfunc signature is specialised from `signature`).  "Each statement receives arguments of exactly the
+    declared types" therefore needs the two to be equal; the text parser and the felt252 reader build both from one list,
+    a `Program` that is deserialised (serde) or built in memory need not.  Obligation: the two consumers exist (else the
+    rule does not apply), and one of the routines acceptance passes through - ProgramRegistry::new / validate, compile, or
+    a routine they call and propagate - compares the two sequences element-wise and rejects on a difference."""
+    S2C = "cairo_lang_sierra_to_casm::"
+    body_readers = [f for f in F.fns.values() if f.path.startswith(S2C) and any(
+        "f:params" in op_prov(f, a, 10) for c in f.calls() for a in c.args[:1] if c.name() in ("iter", "into_iter", "deref"))]
+    body_readers = [f for f in body_readers if any("ReferenceValue" in str(st) or "ReferenceExpression" in str(st)
+                                                   for _, _, st in f.stmts()) or "function_parameters" in f.path]
+    ctx.ob("R15.sig", "consumers:body-typed-from-params", bool(body_readers),
+           "the parameter references of a function body are built from Function.params in: %s" % sorted(
+               strip_generics(f.path).split("::")[-1] for f in body_readers)[:4], body_readers[0].where() if body_readers else "")
+    cands = [validate, new, compile_fn]
+    for root in (validate, new, compile_fn):
+        for c in root.calls():
+            t = F.fns.get(c.path)
+            if t is not None and t not in cands and _result_used(root, c) and (
+                    t.path.startswith("cairo_lang_sierra::program") or t.path.startswith(S2C)):
+                cands.append(t)
+    best = None
+    for f in cands:
+        ctx.analysed(f)
+        r = check_guard(f, SeqEq(["f:params"], ["f:param_types"]), err=None, expect_rel="ne")
+        if r.ok:
+            best = (f, r)
+            break
+        if best is None or ("no test of" in best[1].msg and "no test of" not in r.msg):
+            best = (f, r)
+    f, r = best
+    ctx.ob("R15.sig", "validate:params==signature.param_types", r.ok,
+           ("%s rejects a function whose params differ from its signature" % strip_generics(f.path).split("::")[-1]) if r.ok else
+           "no routine on the way to acceptance (%s) compares Function.params with Function.signature.param_types and rejects: %s; "
+           "the body is typed from the former, callers from the latter" % (
+               ", ".join(strip_generics(x.path).split("::")[-1] for x in cands[:6]), r.msg),
+           f.where(r.line) if r.ok else validate.where())
 
 
 def error_blocks(fn):
